@@ -4,6 +4,7 @@ package reader
 
 import (
 	"context"
+	"sort"
 
 	clientv3 "go.etcd.io/etcd/client/v3"
 
@@ -102,4 +103,37 @@ func verifNilIfDone[C any](ctx context.Context, ch C, site string) C {
 // VerifNilIfDone is the same helper for other packages of the service.
 func VerifNilIfDone[C any](ctx context.Context, ch C, site string) C {
 	return verifNilIfDone(ctx, ch, site)
+}
+
+// VerifHandlerOrder, when set by a simulation harness, chooses the order in which AddPartition visits the channel
+// handlers of a collection: it receives the collection, the partition and the number of handlers and returns a permutation
+// of 0..n-1 that is applied to the handlers sorted by source and target channel (production code visits them in map iteration
+// order, i.e. in a random order).
+var VerifHandlerOrder func(collectionID, partitionID int64, n int) []int
+
+func verifOrderHandlers(collectionID, partitionID int64, hs []*replicateChannelHandler) []*replicateChannelHandler {
+	f := VerifHandlerOrder
+	if f == nil {
+		return hs
+	}
+	sort.Slice(hs, func(i, j int) bool {
+		if hs[i].sourcePChannel != hs[j].sourcePChannel {
+			return hs[i].sourcePChannel < hs[j].sourcePChannel
+		}
+		return hs[i].targetPChannel < hs[j].targetPChannel
+	})
+	perm := f(collectionID, partitionID, len(hs))
+	if len(perm) != len(hs) {
+		return hs
+	}
+	out := make([]*replicateChannelHandler, 0, len(hs))
+	seen := make(map[int]bool, len(hs))
+	for _, i := range perm {
+		if i < 0 || i >= len(hs) || seen[i] {
+			return hs
+		}
+		seen[i] = true
+		out = append(out, hs[i])
+	}
+	return out
 }
